@@ -37,7 +37,14 @@ def compare_one(task):
         defined_b = set(l for l, _ in gb.bnf)
         nts = [x for x in ga.user_nts if x in defined_b]
     cross = {"tag": "g_%s" % abs(hash(task["grammar"]))} if task.get("crosscheck") else None
-    st, wit, dt = P.lang_diff(ga.bnf, ga.start, gb.bnf, gb.start, vocab, task["N"], timeout_ms=task.get("timeout_ms", 120000), also_nts=nts, cross=cross)
+    # a solver time-out at N is retried at smaller bounds; the bound actually decided is recorded
+    n_try = task["N"]
+    while True:
+        st, wit, dt = P.lang_diff(ga.bnf, ga.start, gb.bnf, gb.start, vocab, n_try, timeout_ms=task.get("timeout_ms", 120000), also_nts=nts, cross=cross)
+        if st != "unknown" or n_try <= 6:
+            break
+        n_try -= 2
+    task = dict(task, N=n_try, N_requested=task["N"])
     r = dict(task, status=st, second_opinion=({k: v for k, v in cross.items() if k != "tag"} if cross else None), solver_s=round(dt, 3), wall_s=round(time.time() - t0, 3), terminals=len(vocab),
              prods_a=len(ga.bnf), prods_b=len(gb.bnf), nts_compared=1 + len(nts))
     if st == "sat":
@@ -54,9 +61,20 @@ def compare_one(task):
     return r
 
 
-def run_pairs(tasks, jobs=14):
-    with cf.ProcessPoolExecutor(max_workers=jobs) as ex:
-        return list(ex.map(compare_one, tasks))
+def run_pairs(tasks, jobs=14, per_task_timeout=900):
+    import multiprocessing as mp
+    out = [None] * len(tasks)
+    ctx = mp.get_context("fork")
+    with ctx.Pool(processes=jobs, maxtasksperchild=20) as pool:
+        handles = [pool.apply_async(compare_one, (t,)) for t in tasks]
+        deadline = time.time() + per_task_timeout + 60 * (1 + len(tasks) // max(1, jobs))
+        for i, h in enumerate(handles):
+            try:
+                out[i] = h.get(timeout=max(5, min(per_task_timeout, deadline - time.time())))
+            except Exception as e:
+                out[i] = dict(tasks[i], status="worker_failed", error="%s: %s" % (type(e).__name__, str(e)[:200]), reason="worker failed or timed out")
+        pool.terminate()
+    return out
 
 
 def validate_encoder(sample_files, N=4, limit=6):
@@ -157,12 +175,13 @@ def lang_main(prop, pick, structural, label_a, label_b, functions, explanation, 
         else:
             run.inconc("%s: %s %s" % (r["grammar"], r["status"], r.get("reason", r.get("error", ""))))
         if len(samples) < 5 and r["status"] == "unsat":
-            samples.append({"grammar": r["grammar"], "N": N, "terminals": r["terminals"], "productions_" + label_a.replace(" ", "_"): r["prods_a"],
+            samples.append({"grammar": r["grammar"], "N": r["N"], "terminals": r["terminals"], "productions_" + label_a.replace(" ", "_"): r["prods_a"],
                             "productions_" + label_b.replace(" ", "_"): r["prods_b"], "non_terminals_compared": r.get("nts_compared"),
                             "query": "exists token string of length <= N in exactly one of the two languages", "verdict": "unsat", "solver_s": r["solver_s"]})
     run.cov.update({
         "programs": programs, "disagreements_checked": disagreements, "samples": samples or [{"note": "no grammar validated"}],
-        "bound_N_tokens": N, "grammars_in_corpus": len(files), "grammar_pairs": len(tasks), "skipped": skipped[:40], "skipped_count": len(skipped),
+        "bound_N_tokens": N, "grammars_decided_at_a_smaller_bound": [(r["grammar"], r["N"]) for r in res if r.get("N_requested") and r["N"] != r["N_requested"]][:20],
+        "grammars_in_corpus": len(files), "grammar_pairs": len(tasks), "skipped": skipped[:40], "skipped_count": len(skipped),
         "queries_discharged": queries, "solver": "z3 %s" % z3.get_version_string(), "solver_time_s": round(tsolver, 2),
         "queries_cross_checked_with_cvc5_and_z3_4_8_12": crosschecked,
         "encoder_selfcheck_grammars": info if ok else 0,
